@@ -305,4 +305,35 @@ instance (b : Bytes) : Decidable (CanonicalHead b) :=
 /-- trailer section after the last chunk: field lines up to and including the empty line -/
 def parseTrailers (b : Bytes) : FieldsRes := takeFields (b.length + 1) b
 
+/-! ### the request-head parser as a parameter
+
+  Everything after this point (connection automaton, reference framer, theorems) is stated for an
+  arbitrary `HeadParser`: a function that, given the unprocessed bytes of the read buffer, either
+  wants more bytes, or refuses, or delivers a `Head` — method, target, version class and **any**
+  list of `(name, value)` fields (any letter case, any order, duplicates, list values …) — plus the
+  bytes that follow the head.  What the framing proofs need from it is only that it is an
+  *incremental scanner* (`LawfulHeadParser`): its verdict on a buffer does not change when more bytes
+  arrive behind it.  The request-head parser proper (`get_request_line`, `get_req_headers`) is C02's
+  subject; C02's split-independence theorems state exactly this law for the real parser.
+  `strictParser` (the strict splitter above) is the instance the executable driver runs. -/
+
+class HeadParser where
+  head : Bytes → HeadRes
+  trailers : Bytes → FieldsRes
+
+/-- the verdict of the head / trailer parser is stable under arrival of further bytes, and a head is
+    never empty -/
+class LawfulHeadParser [P : HeadParser] : Prop where
+  head_nil : P.head [] = .incomplete
+  head_append : ∀ (b e : Bytes) (h : Head) (r : Bytes), P.head b = .ok h r → P.head (b ++ e) = .ok h (r ++ e)
+  head_bad_append : ∀ (b e : Bytes), P.head b = .bad → P.head (b ++ e) = .bad
+  head_length : ∀ (b : Bytes) (h : Head) (r : Bytes), P.head b = .ok h r → r.length < b.length
+  trailers_append : ∀ (b e : Bytes) (fs : List Field) (r : Bytes),
+    P.trailers b = .ok fs r → P.trailers (b ++ e) = .ok fs (r ++ e)
+  trailers_bad_append : ∀ (b e : Bytes), P.trailers b = .bad → P.trailers (b ++ e) = .bad
+  trailers_length : ∀ (b : Bytes) (fs : List Field) (r : Bytes), P.trailers b = .ok fs r → r.length < b.length
+
+/-- the strict splitter as a head parser (what `drv_frame` executes) -/
+@[reducible] def strictParser : HeadParser := ⟨parseHead, parseTrailers⟩
+
 end Mhd.Framing
